@@ -90,9 +90,7 @@ def checks_for(rel):
     sync = fl.startswith('sync')
     fn = parts[-1]
     if parts[-2] == 'node' and fn in ('mod.rs', 'adjacent.rs'):
-        cs = (['C01'] if directed else ['C02']) + ['C03', 'C19', 'C20', 'C04', 'C10']
-        if directed:
-            cs.append('C08')
+        cs = (['C01'] if directed else ['C02']) + ['C03', 'C19', 'C04', 'C20']
         if sync:
             cs += ['C15', 'C17']
     elif fn == 'bfs.rs':
